@@ -260,7 +260,7 @@ def cursor_results(tier, seed):
 
 
 def visit_results(tier, seed):
-    return run_catalogue("visit", catalogue.view_schemas(tier), tier, seed, machine="visit")
+    return run_catalogue("visit", catalogue.view_schemas(tier) + [catalogue.enum_schema()], tier, seed, machine="visit")
 
 
 def gen_schemas(tier, seed):
